@@ -20,6 +20,12 @@ def main(prop, rule, tier, replay):
         n = 2 if tier == "quick" else 24
         seeds = [run_.seed * 1000 + i for i in range(n)]
     results = logrun.run_programs(seeds)
+    import shutil
+    if shutil.which("valgrind") and not replay:
+        # one program (thorough: four) once more on the uninstrumented build under valgrind memcheck
+        extra = logrun.run_programs(seeds[:1 if tier == "quick" else 4], tag="memcheck", minima=[0, 3])
+        stats["program-runs-under-memcheck"] = len(extra)
+        results = results + extra
     logrun.evaluate(prop, run_, results, stats)
     run_.coverage["counters"] = dict(stats)
     run_.coverage["programs"] = len(seeds)
